@@ -961,3 +961,22 @@ Lemma gate_on_every_message_same_schedule :
   let s2 := runs current_variant wit_cfg (init_sh, wit7_threads) (repeat O 20) in
   nth_error (snd s2) 0 = Some (LProg PIdle [] [5; 5; 3; 3; 1; 1]%N).
 Proof. vm_compute. reflexivity. Qed.
+
+(* ------------------------------------------------------------------------------------------- *)
+(* a clean-up that deletes BY KEY what an earlier scan saw expired (scan under the read lock,   *)
+(* delete under the write lock, no re-check) erases a ban renewed in between; the sweep of the  *)
+(* code decides and deletes in one locked section (Model: sweep in PCleanB)                     *)
+(* ------------------------------------------------------------------------------------------- *)
+Definition scan_expired (now0 : Z) (m : emap) (ks : list N) : list N := filter (has_expired now0 m) ks.
+Definition delete_keys (ks : list N) (m : emap) : emap := fun k => if existsb (N.eqb k) ks then None else m k.
+Lemma two_phase_sweep_refuted :
+  exists m0 ip t0 t1 dl,
+    let stale := scan_expired t0 m0 [ip] in                           (* scan sees the lapsed record *)
+    let m1 := put current_variant m0 ip (mk_expiry t1 3600000) in      (* the address is banned again *)
+    covers m1 ip (Some dl) /\ t1 <= dl /\
+    delete_keys stale m1 ip = None /\                                  (* two-phase delete: the fresh ban is gone *)
+    covers (sweep t0 m1) ip (Some dl).                                 (* the one-section sweep keeps it *)
+Proof.
+  exists (upd (fun _ => None) 7%N (Some (Some 5))), 7%N, 10, 11, 3600011.
+  vm_compute. repeat split; congruence.
+Qed.
